@@ -838,19 +838,27 @@ class Exec:
             A = self.as_bool(A) if not z3.is_bool(A) else A; B = self.as_bool(B) if not z3.is_bool(B) else B
         return z3.If(c, A, B)
     def int_split(self, st, x, what='trunc'):
-        """case split of a symbolic real into integer part k (toward zero for trunc, floor for floor) ; returns [(constraints, k)]"""
-        lo, hi = self.interval(st, x)
+        """case split of a symbolic real (or IEEE float in the FP domain) into integer part k (toward zero for trunc, floor for floor) ; returns [(constraints, k)]"""
+        isfp = self.dom.name == 'fp'
+        if isfp:
+            srt = x.sort()
+            def K(k): return z3.FPVal(float(k), srt)
+            ge = lambda a, k: z3.fpGEQ(a, K(k)); gt = lambda a, k: z3.fpGT(a, K(k)); lt = lambda a, k: z3.fpLT(a, K(k)); le = lambda a, k: z3.fpLEQ(a, K(k))
+            lo, hi = st.ranges.get(str(x), (-float('inf'), float('inf'))) if z3.is_const(x) else (-float('inf'), float('inf'))
+        else:
+            ge = lambda a, k: a >= k; gt = lambda a, k: a > k; lt = lambda a, k: a < k; le = lambda a, k: a <= k
+            lo, hi = self.interval(st, x)
         rlo, rhi = self.int_range
         if lo != -float('inf'): rlo = max(rlo, math.floor(lo) - 1)
         if hi != float('inf'): rhi = min(rhi, math.ceil(hi) + 1)
         alts = []
         for k in range(rlo, rhi + 1):
-            if what == 'floor': c = z3.And(x >= k, x < k + 1)
-            else: c = z3.And(x >= k, x < k + 1) if k > 0 else (z3.And(x > k - 1, x <= k) if k < 0 else z3.And(x > -1, x < 1))
+            if what == 'floor': c = z3.And(ge(x, k), lt(x, k + 1))
+            else: c = z3.And(ge(x, k), lt(x, k + 1)) if k > 0 else (z3.And(gt(x, k - 1), le(x, k)) if k < 0 else z3.And(gt(x, -1), lt(x, 1)))
             if self.feasible(st, c): alts.append(([c], k))
         # outside the split range?
-        out = z3.Or(x < rlo, x >= rhi + 1)
-        if self.feasible(st, out): raise Unsupported('integer part of a symbolic real may lie outside the stated range [%d,%d]' % (rlo, rhi))
+        out = z3.Or(lt(x, rlo), ge(x, rhi + 1)) if not isfp else z3.Or(lt(x, rlo), ge(x, rhi + 1), z3.fpIsNaN(x))
+        if self.feasible(st, out): raise Unsupported('integer part of a symbolic value may lie outside the stated range [%d,%d] (or be NaN)' % (rlo, rhi))
         return alts
     def fp_to_int(self, st, v, signed, bits):
         if self.dom.name in ('concrete', 'fp') and self.dom.is_conc(v):
@@ -863,7 +871,7 @@ class Exec:
             if (not signed and (iv < 0 or iv >= (1 << bits))) or (signed and not (-(1 << (bits - 1)) <= iv < (1 << (bits - 1)))):
                 self.note_ub(st, 'fp-to-int conversion of out-of-range value %s' % float(v))
             return iv & MASK(bits)
-        tag = self.intof.get(v.get_id())
+        tag = self.intof.get(v.get_id()) if hasattr(v, 'get_id') else None
         if tag is not None: return tag[1]
         alts = self.int_split(st, v, 'trunc')
         res = []
@@ -877,11 +885,13 @@ class Exec:
         bits = LIBM[name][2]
         base = name[:-1] if bits == 32 and name.endswith('f') else name
         if self.dom.name != 'concrete' and base in ('floor', 'ceil', 'round') and not self.dom.is_conc(args[0]):
+            if self.dom.name == 'fp' and base != 'floor': raise Unsupported('symbolic %s in the FP domain' % base)
             return self.round_sym(st, base, args[0])
         return self.dom.fn(name, args, bits)
     def round_sym(self, st, base, x):
         if base == 'floor':
-            return Forks([(c, Fraction(k), None) for c, k in self.int_split(st, x, 'floor')])
+            mk = (lambda k: np.float32(k)) if self.dom.name == 'fp' else (lambda k: Fraction(k))
+            return Forks([(c, mk(k), None) for c, k in self.int_split(st, x, 'floor')])
         if base == 'ceil':
             return Forks([(c, Fraction(-k), None) for c, k in self.int_split(st, -x, 'floor')])
         # round half away from zero
@@ -932,6 +942,9 @@ class Exec:
             if self.dom.name in ('concrete', 'fp') and self.dom.is_conc(a) and self.dom.is_conc(b): return (np.fmin if isn else np.fmax)(a, b)
             c = self.dom.cmp('olt' if isn else 'ogt', a, b)
             if isinstance(c, int): return a if c else b
+            if self.dom.name == 'fp':      # IEEE minNum/maxNum: a quiet NaN operand yields the other operand
+                A, Bz = self.dom.z(a), self.dom.z(b)
+                return z3.If(z3.fpIsNaN(Bz), A, z3.If(z3.fpIsNaN(A), Bz, z3.If(c, A, Bz)))
             return z3.If(c, self.dom.z(a), self.dom.z(b))
         if name.startswith('llvm.ctlz') or name.startswith('llvm.cttz') or name.startswith('llvm.ctpop'):
             v = args[0]; bits = ins['ty'].bits
@@ -1008,8 +1021,10 @@ def ext_modff(ex, st, fr, args, ins):
         i = Fraction(int(x)); ex.store(st, ip, FloatTy(32), i); return x - i
     alts = []
     for cons, k in ex.int_split(st, x, 'trunc'):
-        kk = Fraction(k)
-        frac = x - k
+        if ex.dom.name == 'fp':
+            kk = np.float32(k); frac = z3.fpSub(z3.RNE(), x, z3.FPVal(float(k), x.sort()))      # exact: |x - k| < 1 is representable
+        else:
+            kk = Fraction(k); frac = x - k
         def eff(o, kk=kk): ex.store(o, ip, FloatTy(32), kk)
         alts.append((cons, frac, eff))
     return Forks(alts)
